@@ -30,6 +30,30 @@ class RealClock:
         return time.monotonic() * 1000.0
 
 
+def new_rloop(net: Any, clock: Any) -> asyncio.AbstractEventLoop:
+    """A real-time SelectorEventLoop whose datagram endpoints are the simulator's fake transports."""
+
+    class RLoop(asyncio.SelectorEventLoop):
+        async def create_datagram_endpoint(self, protocol_factory, local_addr=None, remote_addr=None, *, sock=None, **kw):  # type: ignore[override]
+            protocol = protocol_factory()
+            transport = simnet.FakeTransport(self, sock, protocol, net)  # type: ignore[arg-type]
+            transport._vloop = self
+            sock.transport = transport
+            sock.protocol = protocol
+            protocol.connection_made(transport)
+            return transport, protocol
+
+    loop = RLoop()
+    loop.vclock = clock  # type: ignore[attr-defined]
+    net.loop = loop      # type: ignore[assignment]
+    escapes = net.escapes
+
+    def handler(l: Any, ctx: Dict[str, Any]) -> None:
+        escapes.append({"message": ctx.get("message"), "exc": repr(ctx.get("exception")), "exc_type": type(ctx.get("exception")).__name__})
+    loop.set_exception_handler(handler)
+    return loop
+
+
 class BlockingInstance:
     def __init__(self, ip4: str = "10.0.0.1", ip6: Optional[str] = None, layout: str = "single") -> None:
         self.clock = RealClock()
@@ -45,27 +69,9 @@ class BlockingInstance:
         from zeroconf import Zeroconf
         net, clock = self.net, self.clock
 
-        class RLoop(asyncio.SelectorEventLoop):
-            async def create_datagram_endpoint(self, protocol_factory, local_addr=None, remote_addr=None, *, sock=None, **kw):  # type: ignore[override]
-                protocol = protocol_factory()
-                transport = simnet.FakeTransport(self, sock, protocol, net)  # type: ignore[arg-type]
-                transport._vloop = self
-                sock.transport = transport
-                sock.protocol = protocol
-                protocol.connection_made(transport)
-                return transport, protocol
-
         class Policy(asyncio.DefaultEventLoopPolicy):
             def new_event_loop(self):  # type: ignore[override]
-                loop = RLoop()
-                loop.vclock = clock  # type: ignore[attr-defined]
-                net.loop = loop      # type: ignore[assignment]
-                escapes = net.escapes
-
-                def handler(l: Any, ctx: Dict[str, Any]) -> None:
-                    escapes.append({"message": ctx.get("message"), "exc": repr(ctx.get("exception")), "exc_type": type(ctx.get("exception")).__name__})
-                loop.set_exception_handler(handler)
-                return loop
+                return new_rloop(net, clock)
 
         self._saved_cs = core.create_sockets
         self._old_policy = asyncio.get_event_loop_policy()
@@ -116,3 +122,52 @@ class BlockingInstance:
         self.in_loop(lambda: None)
         time.sleep(ms / 1000.0)
         self.in_loop(lambda: None)
+
+
+class SharedLoopInstance(BlockingInstance):
+    """The other way to end up calling the blocking API from a non-loop thread: the application runs its own event loop (here:
+    in a thread of its own), creates the instance *inside* that loop - it then shares the loop and has no loop thread of its
+    own - and later calls blocking methods such as close() from a worker thread."""
+
+    def __enter__(self) -> "SharedLoopInstance":
+        import threading
+        import zeroconf._core as core
+        from zeroconf import Zeroconf
+        self._saved_cs = core.create_sockets
+        self._old_policy = asyncio.get_event_loop_policy()
+        core.create_sockets = lambda *a, **k: self.host.make_sockets()
+        self.app_loop = new_rloop(self.net, self.clock)
+
+        def run() -> None:
+            asyncio.set_event_loop(self.app_loop)
+            self.app_loop.run_forever()
+        self.app_thread = threading.Thread(target=run, daemon=True)
+        self.app_thread.start()
+
+        async def make() -> Any:
+            return Zeroconf()
+        try:
+            self.zc = asyncio.run_coroutine_threadsafe(make(), self.app_loop).result(20)
+        except BaseException:
+            self._stop_app_loop()
+            self._restore()
+            raise
+        return self
+
+    def _stop_app_loop(self) -> None:
+        try:
+            self.app_loop.call_soon_threadsafe(self.app_loop.stop)
+            self.app_thread.join(10)
+        except Exception:  # noqa
+            pass
+
+    def __exit__(self, *exc: Any) -> None:
+        try:
+            if self.zc is not None and not self.closed:
+                try:
+                    self.zc.close()
+                except Exception:  # noqa
+                    pass
+        finally:
+            self._stop_app_loop()
+            self._restore()
